@@ -285,12 +285,13 @@ PROPS = {
         "module": "HctlProofs.Props.C04",
         "theorems": ["Hctl.C04.cache_transparent", "Hctl.C04.cached_eq_pure", "Hctl.C04.batch_sound", "Hctl.C04.batch_results_agree",
                      "Hctl.C04.init_cacheOK_plain", "Hctl.C04.init_cacheOK_noSharing", "Hctl.evalNode_sound",
-                     "Hctl.lookup_spec", "Hctl.store_ok"],
+                     "Hctl.lookup_spec", "Hctl.store_ok", "Hctl.C04.init_cacheOK_ext", "Hctl.C04.extended_batch_sound",
+                     "Hctl.keySem_holds", "Hctl.keyWild_holds"],
         "ks": ["o04", "k7"],
         "spec_tied": ["o04:pure_", "k7:pure_"],
         "full": False,
-        "not_proved": 'the two key facts the cache theorem needs are now DERIVED from the canoniser model (keySem_holds: equal keys => equal canonical trees => the cached set renamed back denotes the other sub-formula; keyWild_holds), via canonChars_render (character-level canoniser = tree-level canonical form), render_injective and sat_renameVar. Remaining hypotheses (definitions, not axioms): CharsOK (facts about Rust character classes, checked against std by K1), CtxSC (context sets do not depend on the variable slots), the top-level unit does not constrain the variable slots, GraphAsync (a transition changes the state), and for the initial context: every key in the duplicate map has at most one variable for every legitimate tree carrying it (not yet derived from the markDups model; exercised by K6 and the batch oracles)' + "; the initial context with wild-cards pre-loaded (extend_context_with_wild_cards) is covered "
-                      "by the invariant's clauses but not derived from the model's function in Lean; the progress callback is not "
+        "not_proved": 'the two key facts the cache theorem needs are now DERIVED from the canoniser model (keySem_holds: equal keys => equal canonical trees => the cached set renamed back denotes the other sub-formula; keyWild_holds), via canonChars_render (character-level canoniser = tree-level canonical form), render_injective and sat_renameVar. Remaining hypotheses (definitions, not axioms): CharsOK (facts about Rust character classes, checked against std by K1), CtxSC (context sets do not depend on the variable slots), the top-level unit does not constrain the variable slots, GraphAsync (a transition changes the state), and for the initial context: every key in the duplicate map has at most one variable for every legitimate tree carrying it (not yet derived from the markDups model; exercised by K6 and the batch oracles)' + "; the initial context with wild-cards pre-loaded (extend_context_with_wild_cards) is now proved to satisfy "
+                      "the invariant (init_cacheOK_ext, extended_batch_sound); the progress callback is not "
                       "an input of the model (it only receives references in Rust) — checked by the oracle",
         "rule": "O04: batches of 2-4 extended formulae with planted overlaps (sub-formulae shared up to renaming, closed under fresh "
                 "quantifiers with/without domains, swapped-role two-variable duplicates) on all networks, k=1..3: batch vs each formula "
